@@ -170,7 +170,11 @@ func canonFeed(h bstream.Handler, start, stop, final, head uint64, failAt int64)
 }
 
 func NewCtx() context.Context {
-	c := reqctx.WithLogger(context.Background(), zap.NewNop())
+	lg := zap.NewNop()
+	if os.Getenv("VERIF_LOG") != "" { // debugging aid
+		lg, _ = zap.NewDevelopment()
+	}
+	c := reqctx.WithLogger(context.Background(), lg)
 	c = dmetering.WithBytesMeter(c)
 	c = reqctx.WithEmitter(c, nopEmitter{})
 	return c
